@@ -36,6 +36,22 @@ def incr_identity_hint(u, sorted_t, B, T):
     u.ctx.assume(z3.ForAll([b], z3.Implies(z3.And(b >= 0, b < zint(B), strict, inr), concl)))
 
 
+def carried(env, name, dtype, exclude=(), nth=None):
+    """A loop-carried local of the checked function, looked up by its current name and, if a harmless rename changed it, by its
+    role: the only tensor local of that dtype (and not claimed by another role) that is not an input of the function."""
+    from tvc.core import SymTensor
+
+    if name in env and isinstance(env[name], SymTensor):
+        return env[name]
+    pool = env.get("__loop_carried__") or [k for k in env if not k.startswith("__")]
+    cands = [k for k in pool if isinstance(env.get(k), SymTensor) and env[k].dtype == dtype and k not in exclude]
+    if len(cands) == 1:
+        return env[cands[0]]
+    if nth is not None and nth < len(cands):
+        return env[cands[nth]]      # several candidates: the nth of that dtype in the order the loop body assigns them
+    raise KeyError(f"loop-carried local '{name}' not found and its role is ambiguous among {cands}")
+
+
 class capture_sort:
     """context manager: remember the results of torch.sort calls executed by the checker (their assumed contract is
     instantiated at the indices a goal talks about)."""
@@ -185,7 +201,7 @@ def _(u):
     u.requires(base)
 
     def inv(env, i):
-        uc = env["used_cap"]
+        uc = carried(env, "used_cap", "f")
         return [("used_cap-is-checker-load", u.forall((B,), lambda b: uc.at(b) == Lchk(b, zint(i)))),
                 ("all-earlier-asserts-held", u.forall((B, (1, zint(i) + 1)), lambda b, t: Lchk(b, t) <= cap(b) + EPS5)),
                 ("definition-load-below-checker-load", u.forall((B, (0, zint(i) + 1)), lambda b, t: AND(Ldef(b, t) >= 0, Ldef(b, t) <= Lchk(b, t))))]
@@ -236,7 +252,7 @@ def _(u):
     u.requires(u.forall((B, (0, T + 1)), lambda b, t: AND(Ldef(b, t) >= 0, Ldef(b, t) <= cap(b))))
 
     def inv(env, i):
-        uc = env["used_cap"]
+        uc = carried(env, "used_cap", "f")
         return [("used_cap-is-definition-load", u.forall((B,), lambda b: AND(uc.at(b) == Lchk(b, zint(i)), Lchk(b, zint(i)) == Ldef(b, zint(i)))))]
 
     u.loop(CVRP, "CVRPEnv.check_solution_validity", 0,
@@ -509,7 +525,7 @@ def _(u):
     u.stub(CVRPEnv=u.ns(check_solution_validity=lambda td_, a_: None))
 
     def inv(env, i):
-        ct, cn = env["curr_time"], env["curr_node"]
+        ct, cn = carried(env, "curr_time", "f"), carried(env, "curr_node", "i")
         cnat = (lambda b: cn.at(b, 0)) if cn.rank == 2 else (lambda b: cn.at(b))
         return [("curr_time-is-departure-time", u.forall((B,), lambda b: ct.at(b, 0) == leave(b, zint(i)))),
                 ("curr_node-is-previous-node", u.forall((B,), lambda b: cnat(b) == prev(b, i))),
@@ -589,7 +605,7 @@ def _(u):
     cap = lambda b: td["vehicle_capacity"].at(b, 0)
 
     def inv_route(env, i):
-        ct, cn, cl = env["curr_time"], env["curr_node"], env["curr_length"]
+        ct, cn, cl = carried(env, "curr_time", "f", nth=1), carried(env, "curr_node", "i"), carried(env, "curr_length", "f", nth=0)
         return [("curr_time-is-departure-time", u.forall((B,), lambda b: ct.at(b) == leave(b, zint(i)))),
                 ("curr_node-is-previous-node", u.forall((B,), lambda b: cn.at(b) == prev(b, i))),
                 ("curr_length-is-carried-route-length", u.forall((B,), lambda b: cl.at(b) == rlen0(b, zint(i)))),
@@ -601,7 +617,7 @@ def _(u):
 
     def inv_load(L, unf):
         def inv(env, i):
-            uc = env["used_cap"]
+            uc = carried(env, "used_cap", "f")
             return [("used_cap-is-route-load", u.forall((B,), lambda b: uc.at(b) == L(b, zint(i)))),
                     ("earlier-loads-within-capacity", u.forall((B, (1, zint(i) + 1)), lambda b, t: L(b, t) <= cap(b)))]
         return inv
